@@ -50,6 +50,19 @@ type Engine struct {
 	strConsts  map[string]int
 	sweepProps []sweepRule
 	axioms     map[string][]Clause // package path -> global invariants assumed at function entry
+	onStore    map[string]string   // "<comp>.<field accessor>" -> ghost set receiving the stored pointer
+	stateInvs  []predApp           // invariants of the instrumented semantics, assumed in every state
+	storeFacts map[string]predApp  // comp -> fact asserted after a store into an object of that comp
+	ghostByValue  map[string]bool
+	nonNilGlobals map[*ssa.Global]bool
+	nonNilComps   map[string]bool
+}
+
+// predApp: a spec predicate applied to state-dependent arguments
+// (region names, "ghost:<name>", "na").
+type predApp struct {
+	Pred string
+	Args []string
 }
 
 type sweepRule struct {
@@ -107,7 +120,7 @@ func (e *Engine) stringConst(x *Exec, s string) string {
 }
 
 func loadEngine(repo, verifDir string, patterns []string, overlay map[string][]byte) (*Engine, error) {
-	e := &Engine{repo: repo, verifDir: verifDir, fns: map[string]*ssa.Function{}, contracts: map[string]*Contract{}, specFns: map[string]*SpecFn{}, specConsts: map[string]string{}, ghosts: map[string]string{}, regions: map[string][]string{}, typeIDs: map[string]int{}, so: newSorts(), wsMemo: map[*ssa.Function]*WriteSet{}, wsBusy: map[*ssa.Function]bool{}, allPkgs: map[string]*types.Package{}, rowOps: map[string]bool{}, mapCards: map[string]string{}, strConsts: map[string]int{}, axioms: map[string][]Clause{}}
+	e := &Engine{repo: repo, verifDir: verifDir, fns: map[string]*ssa.Function{}, contracts: map[string]*Contract{}, specFns: map[string]*SpecFn{}, specConsts: map[string]string{}, ghosts: map[string]string{}, regions: map[string][]string{}, typeIDs: map[string]int{}, so: newSorts(), wsMemo: map[*ssa.Function]*WriteSet{}, wsBusy: map[*ssa.Function]bool{}, allPkgs: map[string]*types.Package{}, rowOps: map[string]bool{}, mapCards: map[string]string{}, strConsts: map[string]int{}, axioms: map[string][]Clause{}, onStore: map[string]string{}, storeFacts: map[string]predApp{}, ghostByValue: map[string]bool{}}
 	// scratch copy of go.mod/go.sum so that the repository is never written
 	tmp, err := os.MkdirTemp("", "govcmod")
 	if err != nil {
@@ -152,6 +165,7 @@ func loadEngine(repo, verifDir string, patterns []string, overlay map[string][]b
 		e.fns[fn.String()] = fn
 	}
 	e.scanExec = e.newExec(nil, nil)
+	e.findSentinelErrors()
 	e.so.elemComp(types.Typ[types.Uint8])
 	// contracts inside the repository packages
 	for _, p := range pkgs {
@@ -209,6 +223,48 @@ func loadEngine(repo, verifDir string, patterns []string, overlay map[string][]b
 	return e, nil
 }
 
+// findSentinelErrors: package-level error variables assigned exactly once,
+// in the package initialiser, from errors.New / fmt.Errorf are non-nil.
+func (e *Engine) findSentinelErrors() {
+	e.nonNilGlobals = map[*ssa.Global]bool{}
+	stores := map[*ssa.Global][]*ssa.Store{}
+	for _, fn := range e.fns {
+		for _, b := range fn.Blocks {
+			for _, ins := range b.Instrs {
+				if st, ok := ins.(*ssa.Store); ok {
+					if g, ok := st.Addr.(*ssa.Global); ok {
+						stores[g] = append(stores[g], st)
+					}
+				}
+			}
+		}
+	}
+	for g, sts := range stores {
+		if len(sts) != 1 {
+			continue
+		}
+		if !types.Identical(g.Type().(*types.Pointer).Elem(), types.Universe.Lookup("error").Type()) {
+			continue
+		}
+		st := sts[0]
+		if st.Parent().Name() != "init" {
+			continue
+		}
+		v := st.Val
+		if mi, ok := v.(*ssa.MakeInterface); ok {
+			v = mi.X
+		}
+		if c, ok := v.(*ssa.Call); ok {
+			if f := c.Common().StaticCallee(); f != nil {
+				switch f.String() {
+				case "errors.New", "fmt.Errorf":
+					e.nonNilGlobals[g] = true
+				}
+			}
+		}
+	}
+}
+
 func (e *Engine) addContract(c *Contract) {
 	if _, dup := e.contracts[c.Key]; dup {
 		e.specErrs = append(e.specErrs, fmt.Sprintf("%s:%d: duplicate contract for %s", c.File, c.Line, c.Key))
@@ -240,6 +296,12 @@ func (e *Engine) loadSpecSMT(path string) error {
 			var comps []string
 			var decl []string
 			for _, tn := range fs[2:] {
+				if strings.HasPrefix(tn, "comp:") {
+					c := strings.TrimPrefix(tn, "comp:")
+					comps = append(comps, c)
+					decl = append(decl, fmt.Sprintf("(Reg%s_%s %s)", fs[1], c, e.so.comps[c]))
+					continue
+				}
 				t := e.lookupType(tn, nil)
 				if t == nil {
 					return fmt.Errorf("%s:%d: unknown type %s", path, ln+1, tn)
@@ -250,6 +312,26 @@ func (e *Engine) loadSpecSMT(path string) error {
 			}
 			e.regions[fs[1]] = comps
 			e.regionDecl = append(e.regionDecl, fmt.Sprintf("(declare-datatypes ((Reg%s 0)) (((mkReg%s %s))))", fs[1], fs[1], strings.Join(decl, " ")))
+		case "onstore":
+			// ;@onstore iavl.Node.leftNode ghostset inptr
+			if len(fs) != 4 || fs[2] != "ghostset" {
+				return fmt.Errorf("%s:%d: bad onstore", path, ln+1)
+			}
+			i := strings.LastIndex(fs[1], ".")
+			t := e.lookupType(fs[1][:i], nil)
+			if t == nil {
+				return fmt.Errorf("%s:%d: unknown type %s", path, ln+1, fs[1][:i])
+			}
+			si := e.so.structInfo(t)
+			e.onStore[e.so.structComp(t)+"."+si.Name+"_"+fs[1][i+1:]] = fs[3]
+		case "stateinv":
+			e.stateInvs = append(e.stateInvs, predApp{Pred: fs[1], Args: fs[2:]})
+		case "storefact":
+			t := e.lookupType(fs[1], nil)
+			if t == nil {
+				return fmt.Errorf("%s:%d: unknown type %s", path, ln+1, fs[1])
+			}
+			e.storeFacts[e.so.structComp(t)] = predApp{Pred: fs[2], Args: fs[3:]}
 		case "ghost":
 			rest := strings.TrimSpace(strings.TrimPrefix(strings.TrimPrefix(line, ";@"), " ghost"))
 			rest = strings.TrimSpace(strings.TrimPrefix(strings.TrimSpace(rest), "ghost"))
@@ -257,7 +339,12 @@ func (e *Engine) loadSpecSMT(path string) error {
 			if i < 0 {
 				return fmt.Errorf("%s:%d: bad ghost", path, ln+1)
 			}
-			e.ghosts[rest[:i]] = strings.TrimSpace(rest[i:])
+			srt := strings.TrimSpace(rest[i:])
+			if strings.HasSuffix(srt, " byvalue") {
+				srt = strings.TrimSpace(strings.TrimSuffix(srt, " byvalue"))
+				e.ghostByValue[rest[:i]] = true
+			}
+			e.ghosts[rest[:i]] = srt
 		case "const":
 			rest := strings.TrimSpace(strings.TrimPrefix(strings.TrimSpace(strings.TrimPrefix(line, ";@")), "const"))
 			i := strings.IndexAny(rest, " \t")
@@ -282,7 +369,7 @@ func (e *Engine) loadSpecSMT(path string) error {
 			e.specFns[head[0]] = sf
 		}
 	}
-	e.specText += "; ---- " + filepath.Base(path) + " ----\n" + string(b) + "\n"
+	e.specText += "; ---- " + filepath.Base(path) + " ----\n" + fuelRewrite(string(b)) + "\n"
 	return nil
 }
 
@@ -546,6 +633,7 @@ func (e *Engine) verifyFunc(fn *ssa.Function, ct *Contract, sweep bool, props []
 		fr.vals[fv] = sval{t: s}
 		x.paramEnv[fv.Name()] = TVal{T: s, Sort: e.so.sortOf(fv.Type()), Ty: fv.Type()}
 	}
+	x.assumeStateInvs(st0, "")
 	env := x.baseEnv(fr, st0, st0)
 	if env.pkg != nil && !strings.HasPrefix(fn.Name(), "init") {
 		// global invariants (established by package initialisation, listed as assumptions)
